@@ -81,8 +81,9 @@ def gen_action(rng, T, v, bias_valid=0.75, types=None):
         c = rng.random()
         if c < 0.7 and nets:
             a["net"] = rng.choice(nets)
-        elif c < 0.85 and all_ips:
-            a["net"] = (rng.choice(all_ips), rng.choice([32, 30, 28, 25, 16, 8, 0]))
+        elif c < 0.9 and all_ips:
+            # networks written with a host's own address: one address (/32), the host as first or LAST address of a small block, wide masks
+            a["net"] = (rng.choice(all_ips), rng.choice([32, 32, 31, 30, 29, 28, 25, 16, 8, 0]))
         else:
             a["net"] = (ip2n("172.20.0.0"), 16)
         return a
